@@ -37,7 +37,7 @@ RULE = (
 )
 TIERS = {
     "quick": {"runs": 16, "budget_s": 45, "min_runs": 4, "run_timeout_s": 240},
-    "thorough": {"runs": 640, "budget_s": 780, "min_runs": 100, "run_timeout_s": 600},
+    "thorough": {"runs": 640, "budget_s": 780, "min_runs": 40, "run_timeout_s": 600},
 }
 COMPONENTS_REAL = [
     "sqlfluff LintedFile.persist_tree/_safe_create_replace_file, Linter.lint_paths, cli fix",
